@@ -29,7 +29,7 @@ SafeInt Converter<SafeInt>::getValue(ptrdiff_t val) {
 
 template<>
 SafeInt Converter<SafeInt>::negate(SafeInt const & val) {
-    return SafeInt(-(val.value() + 1));
+    return -(val + SafeInt(1)); // Overflow at PTRDIFF_MAX is reported by SafeInt instead of wrapping
 }
 
 template<>
